@@ -261,6 +261,9 @@ func runFBPredict(c *Ctx) {
 		}
 	}
 
+	// 2c. the complete TIFF / PNG-row-tag grid (every cell in every run)
+	runFBPredGrid(c, false)
+
 	// 3. rows through the real writer/reader, the model and the public filters
 	for i := 0; i < n; i++ {
 		p := fbGenPred(r, false)
